@@ -342,4 +342,13 @@ def c10_insitu_cases(tier, rng):
             o["terminal_psi"] = [0.0, "none"][(k // 2) % 2]
         drive = {"A": field_spec(rng, dev, o, ["uniform", "ramp"][(k // 2) % 2], b=0.3), "currents": current_spec(rng, dev, o, "const" if nt else "none")}
         cases.append({"layer": "L2", "device": dev, "options": o, "drive": drive, "monitors": ["fresh"], "kind": "rival_solver", "rival_solver": ["same_pinning", "toggle_pinning"][(k // 2) % 2], "cost": 8})
+    for k in range(2 if tier == "quick" else 6):
+        # a run WITHOUT screening started from the final state of a run WITH screening (static / ramped field): the induced
+        # potential is not part of this run's model, the operators in use carry the applied potential alone from the first step on
+        nt = int([0, 2][k % 2])
+        dev = zoo.gen_device(rng, n_terminals=nt, n_holes=0, probes=0, size="tiny", smooth=0)
+        dev["layer"]["lam"], dev["layer"]["d"] = 1.0, 0.2  # strong screening: the seed's induced potential is not small
+        o = base_options(rng, adaptive=bool(k % 2), steps=40)
+        drive = {"A": field_spec(rng, dev, o, ["uniform", "ramp"][(k // 2) % 2], b=0.3), "currents": current_spec(rng, dev, o, "const" if nt else "none")}
+        cases.append({"layer": "L2", "device": dev, "options": o, "drive": drive, "monitors": ["fresh"], "kind": "seed_screening_to_plain", "seed_from_screening": True, "cost": 30})
     return cases
